@@ -2,4 +2,7 @@ package main
 
 import "verifgo/facts"
 
-func init() { extraGenerators["C05Patterns.lean"] = facts.GenC05Patterns }
+func init() {
+	extraGenerators["C05Patterns.lean"] = facts.GenC05Patterns
+	extraGenerators["C05RpcSites.lean"] = facts.GenC05RpcSites
+}
